@@ -181,6 +181,15 @@ class StmtMixin(object):
                 break
         return v
 
+    def e_Attribute(self, node, env):
+        # a value stored on an object under path conditions is read back under the conditions that hold here
+        v = super(StmtMixin, self).e_Attribute(node, env)
+        if isinstance(v, Phi):
+            v = self.resolve(v)
+            if isinstance(v, Undefined):
+                self.err(node, "attribute %s may be undefined here" % node.attr)
+        return v
+
     def lookup_name(self, name, env, node=None):
         v = super(StmtMixin, self).lookup_name(name, env, node)
         v = self.resolve(v)
